@@ -206,7 +206,7 @@ theorem c16_clone_independent (grow : Nat → Nat → Nat) (kinds : List Kind) (
     · exact h
     · rw [List.getElem?_eq_none h] at hd; cases hd
   -- what `clone` did to register d
-  simp only [hstep, hd, hsrc] at h1
+  simp only [hstep, hstep1, hd, hsrc] at h1
   split at h1
   · rename_i hk
     simp only [HRes.ok.injEq] at h1
